@@ -514,8 +514,14 @@ impl Retrier {
                                     log::warn!(
                                         "{tower_id} cannot be reached. Tower will be retried later"
                                     );
-                                    return Err(Error::transient(RetryError::Unreachable));
+                                } else {
+                                    // The tower is there but what it sends cannot be understood. Back off too, otherwise
+                                    // the same appointment is re-sent in a tight loop for as long as the tower keeps doing so.
+                                    log::warn!(
+                                        "Unexpected response from {tower_id} ({e:?}). Tower will be retried later"
+                                    );
                                 }
+                                return Err(Error::transient(RetryError::Unreachable));
                             }
                             AddAppointmentError::ApiError(e) => match e.error_code {
                                 errors::INVALID_SIGNATURE_OR_SUBSCRIPTION_ERROR => {
